@@ -70,6 +70,7 @@ def addV (n : NumOps) (l r : Value) : Value :=
   | .num a, .num b => numR (n.add a b)
   | .str a, .str b => .str (a ++ b)
   | .dtDur a, .dtDur b => .dtDur (a + b)
+  | .ymDur a, .ymDur b => .ymDur (a + b)
   | _, _ => .null
 
 /-- `build_sub` (date-time subtraction goes through chrono: instants from the harness) -/
@@ -80,6 +81,8 @@ def subV (n : NumOps) (l r : Value) : Value :=
     match a.key, b.key with
     | some x, some y => .dtDur (x - y)
     | _, _ => .null
+  | .dtDur a, .dtDur b => .dtDur (a - b)
+  | .ymDur a, .ymDur b => .ymDur (a - b)
   | _, _ => .null
 
 /-- `build_mul` -/
@@ -109,6 +112,7 @@ def negV (v : Value) : Value :=
   match v with
   | .num a => .num (Dec.negate a)
   | .dtDur a => .dtDur (-a)
+  | .ymDur a => .ymDur (-a)
   | _ => .null
 
 /-- `build_numeric` -/
